@@ -3,6 +3,7 @@ CONSTANTS
   Vals <- Sym2
   MaxLen = 5
   LawId = "lin"
+  LawTable <- EmptyTable
   FixedJunction = TRUE
 INVARIANT ChunkIndependentHystereses
 INVARIANT ChunkIndependentRunningExtremes
